@@ -265,3 +265,43 @@ Theorem C20_route_source_nonvacuous :
           (PStr "V23", [PTup [PInt 0; PInt 500; PStr "N"]; PTup [PInt 0; PInt 480; PStr "N"]; PTup [PInt 0; PInt 460; PStr "N"];
                         PTup [PInt 10; PInt 500; PStr "N"]; PTup [PInt 10; PInt 480; PStr "N"]; PTup [PInt 10; PInt 460; PStr "N"]])].
 Proof. exact ex_nonvacuous. Qed.
+
+(** SOURCE TIE of the transformer callbacks: DefTransformer.pins_opt, .pins_stmt, .comp_stmt, translated statement by statement from
+    the current def_file.py (Gen/DefCallbacksSrc.v, translate/gen_def_callbacks.py; DefPin(...) = the attribute stores of
+    DefPin.__init__, setattr with a computed name = a store into the insertion-ordered vars() list, the side-effect comprehension
+    = a loop), ARE the hand transcription Model/DefElab.v (cb_pins_opt, cb_pins_stmt, cb_comp_stmt) the callback theorems above are
+    stated on.  Callbacks covered: pins_opt, pins_stmt, comp_stmt (there is no comp_opt in the code).
+      pins_opt   for every argument list of the grammar (keyword token, then ID tokens / transformed points)
+      pins_stmt  for every pin name and every list of (opt, val) pairs in which no attribute pair is named "placed" / "name" /
+                 "points" ([pinopt_ok]: exactly the names pins_stmt / DefPin give another meaning; every value pins_opt returns
+                 satisfies it); the entry goes to self.def_file.pins under pin.name
+      comp_stmt  for every name / kind / point / orientation; the entry goes to self.def_file.components *)
+From KV Require Import Model.DefCallbacksSrcLib Gen.DefCallbacksSrc Proofs.DefCallbacksSrcProofs.
+Theorem C20_callbacks_source_is_model :
+  (forall o, DefTransformer_pins_opt_src (enc_pinopt_arg o) = Some (enc_pinopt_val (cb_pins_opt o))) /\
+  (forall o, pinopt_ok (cb_pins_opt o) = true) /\
+  (forall name opts, forallb pinopt_ok opts = true ->
+     DefTransformer_pins_stmt_src (PList (PStr name :: map enc_pinopt_val opts)) = Some (PStr name, enc_dpin (cb_pins_stmt name opts))) /\
+  DefTransformer_pins_stmt_store = "pins"%string /\
+  (forall name kind p orient,
+     DefTransformer_comp_stmt_src (PList [PStr name; PStr kind; enc_rpoint p; PStr orient]) =
+     Some (PStr (fst (cb_comp_stmt name kind p orient)), enc_dcomp (snd (cb_comp_stmt name kind p orient)))) /\
+  DefTransformer_comp_stmt_store = "components"%string.
+Proof. exact callbacks_source_is_model. Qed.
+(* the precondition of pins_stmt is needed: an attribute pair named 'placed' is appended to pin.points by the code *)
+Theorem C20_callbacks_source_precondition_needed :
+  DefTransformer_pins_stmt_src (PList [PStr "p"; enc_pinopt_val (PAttr "placed" PVEmpty)]) <>
+  Some (PStr "p", enc_dpin (cb_pins_stmt "p" [PAttr "placed" PVEmpty])).
+Proof. exact pins_stmt_precondition_needed. Qed.
+(* non-vacuity:  - VDD + NET VDD + PLACED ( 0 100 ) N + PORT + PLACED ( 500 100 ) S ;   a pin with TWO placements: both are kept, in order *)
+Theorem C20_callbacks_source_nonvacuous :
+  forallb pinopt_ok (map cb_pins_opt ex_pin_args) = true /\
+  map DefTransformer_pins_opt_src (map enc_pinopt_arg ex_pin_args) =
+    [Some (PTup [PStr "net"; PStr "VDD"]); Some (PTup [PStr "placed"; PTup [PInt 0; PInt 100; PStr "N"]]);
+     Some (PTup [PStr "port"; PList []]); Some (PTup [PStr "placed"; PTup [PInt 500; PInt 100; PStr "S"]])] /\
+  DefTransformer_pins_stmt_src (PList (PStr "VDD" :: map enc_pinopt_val (map cb_pins_opt ex_pin_args))) =
+    Some (PStr "VDD", [("name"%string, PStr "VDD");
+                       ("points"%string, PList [PTup [PInt 0; PInt 100; PStr "N"]; PTup [PInt 500; PInt 100; PStr "S"]]);
+                       ("net"%string, PStr "VDD"); ("port"%string, PList [])]) /\
+  dp_points (cb_pins_stmt "VDD" (map cb_pins_opt ex_pin_args)) = [(Some 0%Z, Some 100%Z, "N"%string); (Some 500%Z, Some 100%Z, "S"%string)].
+Proof. exact ex_pin_two_placements. Qed.
